@@ -119,7 +119,7 @@ def tree_hash(extra=()):
         for root, dirs, files in os.walk(dp):
             dirs[:] = sorted(x for x in dirs if x != "__pycache__")
             for f in sorted(files):
-                if f.endswith(".pyc") or f == "baseline_obligations.json":
+                if f.endswith(".pyc") or f in ("baseline_obligations.json", "baseline_bodies.json"):
                     continue
                 p = os.path.join(root, f)
                 h.update(os.path.relpath(p, VERIF).encode())
